@@ -533,6 +533,10 @@ class Template(object):
 
         property_data_types = {}  # type: Dict[str, edxml.ontology.DataType]
 
+        # Note that we must not change the object values
+        # of the event that we are evaluating the template for.
+        event_object_values = dict(event_object_values)
+
         # Format object values based on their data type to make them
         # more human friendly.
         for property_name, values in event_object_values.items():
